@@ -74,6 +74,9 @@ type RefClient struct {
 	// ByGet lists the rids whose data the client last received through a get
 	// response (frame index), i.e. without any subscription.
 	ByGet map[string]int
+	// Overdrawn counts, per rid, the direct subscriptions that successful
+	// unsubscribe requests released beyond those confirmed to the client.
+	Overdrawn map[string]int
 	// DataAt is the index of the last frame that carried data for a rid.
 	DataAt map[string]int
 	// EverRef lists the rids that some stored resource ever referenced (non-soft).
@@ -428,6 +431,12 @@ func (c *RefClient) response(id int, result json.RawMessage, isErr bool, code st
 	case "unsubscribe":
 		c.Direct[p.RID] -= p.Count
 		if c.Direct[p.RID] < 0 {
+			// the gateway released more direct subscriptions than this client was
+			// ever told about: counts of requests that are still outstanding
+			if c.Overdrawn == nil {
+				c.Overdrawn = map[string]int{}
+			}
+			c.Overdrawn[p.RID] -= c.Direct[p.RID]
 			c.Direct[p.RID] = 0
 		}
 		c.collect()
